@@ -12,8 +12,8 @@ MINMAX = ["ins:1,ins:2,ins:3;extmin,ins:1|extmax,era:2|ins:4,extmin;trav,size,ch
 
 def run(ctx):
     q = ctx.quick()
-    n = 1 if q else 8
-    deep = [("dfs", 2500 if q else 300000, 2 if q else 3)]
+    n = 0 if q else 8
+    deep = [("dfs", 1200 if q else 300000, 2 if q else 3)]
     ps = SC.PROGRAMS + MINMAX + [SC.gen_program(ctx.rng, SC.VOC_FULL, keys=4, minmax=True) for _ in range(n)]
     allv = SKIP + ELLEN + BRONSON
     jobs = make_jobs(ctx, "set_tree", allv, ps) + make_jobs(ctx, "set_tree", allv, SC.DEEP + ["ins:1,ins:2;extmin,ins:1|extmin,era:2;trav,size,check"], strat=deep)
